@@ -20,6 +20,7 @@
 #include <unistd.h>
 #include <sys/wait.h>
 #include <signal.h>
+#include <sys/mman.h>
 
 namespace vh {
 
@@ -274,7 +275,9 @@ static inline bool run_prop(const Prop &p) {
         }
         for (auto &t : tags) ++r.cur->classes[t];
         static const bool fork_mode = getenv("VERIF_FORK") != nullptr;
+        static const bool only_crash = getenv("VERIF_ONLY_CRASH") != nullptr;
         std::string err = fork_mode ? forked_check(p, c) : p.check(c);
+        if (only_crash && err.compare(0, 6, "CRASH:") != 0) { if (!err.empty()) ++r.cur->classes["semantic-mismatch-ignored(other property)"]; err.clear(); }
         if (!err.empty()) {
             r.last = Failure{p.name, c, err};
             r.have_last = true;
@@ -316,6 +319,7 @@ static inline int harness_main(int argc, char **argv, const std::vector<Prop> &p
         for (auto &p : props) {
             if (p.name != pname) continue;
             std::string err = getenv("VERIF_FORK") ? forked_check(p, c) : p.check(c);
+            if (getenv("VERIF_ONLY_CRASH") && err.compare(0, 6, "CRASH:") != 0) err.clear();
             if (err.empty()) { printf("REPLAY-PASS %s\n", pname.c_str()); return 0; }
             printf("REPLAY-FAIL %s: %s\n", pname.c_str(), err.c_str());
             return 1;
@@ -400,19 +404,57 @@ static inline rc::Gen<std::vector<uint64_t>> genChunks(size_t total, size_t rate
                         });
 }
 
-// Exact-size heap copy so that overruns become sanitizer errors; nullptr when
-// empty and allow_null.
+// ---- allocation: malloc by default (visible to ASan); with VERIF_GUARD=1 every
+// block ends exactly at a PROT_NONE page, with VERIF_GUARD=2 it starts right
+// after one.  This is what makes overruns by the assembly code (which ASan
+// cannot instrument) fault in a release build.
+static inline int guard_mode() { static int m = getenv("VERIF_GUARD") ? atoi(getenv("VERIF_GUARD")) : 0; return m; }
+static inline void *xalloc(size_t n) {
+    int gm = guard_mode();
+    if (!gm) return malloc(n ? n : 1);
+    size_t page = 4096;
+    size_t body = ((n + page - 1) / page + (n == 0)) * page;
+    uint8_t *base = (uint8_t *)mmap(nullptr, body + 2 * page, PROT_READ | PROT_WRITE, MAP_PRIVATE | MAP_ANONYMOUS, -1, 0);
+    if (base == (uint8_t *)MAP_FAILED) abort();
+    mprotect(base, page, PROT_NONE);
+    mprotect(base + page + body, page, PROT_NONE);
+    uint8_t *p = gm == 2 ? base + page : base + page + body - n;
+    // remember the mapping in the first guard page is impossible; keep a side table
+    return p;
+}
+static inline void xfree(void *p, size_t n) {
+    if (!p) return;
+    if (!guard_mode()) { free(p); return; }
+    size_t page = 4096;
+    size_t body = ((n + page - 1) / page + (n == 0)) * page;
+    uint8_t *base = guard_mode() == 2 ? (uint8_t *)p - page : (uint8_t *)p + n - body - page;
+    munmap(base, body + 2 * page);
+}
+
+// Exact-size copy so that overruns become sanitizer errors / guard-page faults;
+// nullptr when empty.
 struct Buf {
     uint8_t *p;
     size_t n;
-    explicit Buf(size_t n_, uint8_t fill = 0xA5) : p(n_ ? (uint8_t *)malloc(n_) : nullptr), n(n_) { if (p) memset(p, fill, n); }
-    explicit Buf(const Bytes &b) : p(b.size() ? (uint8_t *)malloc(b.size()) : nullptr), n(b.size()) { if (p) memcpy(p, b.data(), n); }
-    ~Buf() { free(p); }
+    explicit Buf(size_t n_, uint8_t fill = 0xA5) : p(n_ ? (uint8_t *)xalloc(n_) : nullptr), n(n_) { if (p) memset(p, fill, n); }
+    explicit Buf(const Bytes &b) : p(b.size() ? (uint8_t *)xalloc(b.size()) : nullptr), n(b.size()) { if (p) memcpy(p, b.data(), n); }
+    ~Buf() { xfree(p, n); }
     Buf(const Buf &) = delete;
     Buf &operator=(const Buf &) = delete;
     Bytes bytes() const { return p ? Bytes(p, p + n) : Bytes(); }
     // non-null pointer even for empty buffers (for non-optional parameters)
     uint8_t *nn() { static uint8_t dummy[8]; return p ? p : dummy; }
+};
+
+// An object of type T in exact-size storage (see xalloc).
+template <class T> struct Obj {
+    T *p;
+    Obj() : p((T *)xalloc(sizeof(T))) { memset((void *)p, 0xA5, sizeof(T)); }
+    ~Obj() { xfree((void *)p, sizeof(T)); }
+    Obj(const Obj &) = delete;
+    Obj &operator=(const Obj &) = delete;
+    T *operator->() { return p; }
+    T *get() { return p; }
 };
 
 } // namespace vh
